@@ -78,7 +78,7 @@ def edge_cases(ctx, N):
         span = I.bodies[fn]['span']
         for year in (MIN_YEAR, MAX_YEAR):
             label = f'{fn}[year {year}]'
-            N.run(fn, label=label, overrides={'year': lambda I_, st, ty, year=year: const_int(year, 'i32')}, variants=('fixed',))
+            N.run(fn, label=label, overrides={'year@1': lambda I_, st, ty, year=year: const_int(year, 'i32')}, variants=('fixed',))
             for args, st0, outs in N.results.get(label, []):
                 params = [a[1] for a in args if a[0] == 'i']
                 oks = [(st, rv) for st, rv in outs if rv[0] == 'e' and set(rv[2]) == {0}]
